@@ -93,6 +93,15 @@ class PkgClass:
     def __init__(self, qual):
         self.qual = qual
 
+    def __eq__(self, other):
+        return isinstance(other, PkgClass) and other.qual == self.qual
+
+    def __hash__(self):
+        return hash(('PkgClass', self.qual))
+
+    def __repr__(self):
+        return f'<class {self.qual}>'
+
 
 class Closure:
     def __init__(self, fn, owner):
@@ -124,6 +133,33 @@ def _external_table():
 
 EXTERNAL = _external_table()
 HIGHER_ORDER = {'itertools.takewhile', 'itertools.dropwhile', 'itertools.accumulate', 'functools.reduce'}
+
+
+_IS_GENERATOR: dict = {}
+_UNPARSED: dict = {}
+
+
+def _unparse(node):
+    """ast.unparse, memoised per node (the trees live as long as the run)."""
+    t = _UNPARSED.get(id(node))
+    if t is None:
+        t = _UNPARSED[id(node)] = (ast.unparse(node), node)
+    return t[0]
+
+
+class _LateRaise:
+    """Iterator over the items an eagerly run generator produced before it raised; the exception follows the last item."""
+    def __init__(self, items, exc):
+        self.items, self.exc, self.i = items, exc, 0
+
+    def __iter__(self):
+        return self
+
+    def __next__(self):
+        if self.i < len(self.items):
+            self.i += 1
+            return self.items[self.i - 1]
+        raise self.exc
 
 
 class Raised(Exception):
@@ -261,7 +297,7 @@ class Interp(MiniEval):
                 return as_value
             raise Unsupported(f'unbound name {e.id}')
         if isinstance(e, ast.Attribute):
-            text = ast.unparse(e)
+            text = _unparse(e)
             if text in self.stubs:
                 return self.stubs[text]
             base = self.ev(e.value)
@@ -331,10 +367,30 @@ class Interp(MiniEval):
                         ast.BitXor: lambda: a ^ b}[type(e.op)]()
             except ZeroDivisionError:
                 raise Raised('ZeroDivisionError')
+        if isinstance(e, ast.BinOp):
+            a, b = self.ev(e.left), self.ev(e.right)
+            if isinstance(a, Sym) or isinstance(b, Sym) or ((isinstance(a, Obj) or isinstance(b, Obj)) and not isinstance(e.op, ast.Mod)):
+                raise Unsupported('arithmetic on an abstract value')
+            ops = {ast.Add: lambda: a + b, ast.Sub: lambda: a - b, ast.Mult: lambda: a * b, ast.Mod: lambda: a % b,
+                   ast.FloorDiv: lambda: a // b, ast.BitAnd: lambda: a & b, ast.BitOr: lambda: a | b, ast.MatMult: None}
+            f = ops.get(type(e.op))
+            if f is None:
+                raise Unsupported(f'operator {type(e.op).__name__}')
+            try:
+                return f()
+            except ZeroDivisionError:
+                raise Raised('ZeroDivisionError')
+            except TypeError:
+                # the operands are concrete values here: this is what the analysed code would raise
+                raise Raised('TypeError')
         if isinstance(e, ast.Starred):
             raise Unsupported('starred expression')
         if isinstance(e, ast.Subscript) and isinstance(e.ctx, ast.Load):
             base = self.ev(e.value)
+            if isinstance(base, Obj) and not base.has('__iter__'):
+                f = self.dunder(base, '__getitem__')
+                if f is not None and not isinstance(e.slice, ast.Slice):
+                    return self.apply(f, [self.ev(e.slice)], {})
             if isinstance(base, (dict, list, tuple, str)) and not isinstance(e.slice, ast.Slice):
                 k = self.ev(e.slice)
                 try:
@@ -475,7 +531,7 @@ class Interp(MiniEval):
 
     # ---- calls ------------------------------------------------------------------------------------------
     def call_expr(self, e: ast.Call):
-        text = ast.unparse(e.func)
+        text = _unparse(e.func)
         if text in ('cast', 'typing.cast') and len(e.args) == 2:
             return self.ev(e.args[1])       # the type argument is never evaluated
         args = []
@@ -506,6 +562,21 @@ class Interp(MiniEval):
             return args[1]
         if text == 'print':
             return None
+        if text in ('len', 'bool', 'iter', 'hash', 'repr', 'str') and len(args) == 1 and isinstance(args[0], Obj) and text not in self.env:
+            # the protocol methods of a package class, when the object does not carry a canned answer
+            o = args[0]
+            cq = object.__getattribute__(o, '_cls')
+            dunder = {'len': '__len__', 'bool': '__bool__', 'iter': '__iter__', 'hash': '__hash__', 'repr': '__repr__', 'str': '__str__'}[text]
+            if cq and not o.has(dunder):
+                mq = self.src.find_method(cq, dunder)
+                if mq is None and text == 'bool':
+                    mq = self.src.find_method(cq, '__len__')
+                if mq:
+                    m_, fn_ = self.src.func(mq)
+                    r = self.apply(PkgFunc(m_, fn_, mq.split('.')[1], bound=o), [], {})
+                    return bool(r) if text == 'bool' else r
+            if text == 'hash':
+                return hash(o)
         if text == 'next' and args and not isinstance(args[0], (Obj, Sym)) and text not in self.stubs:
             try:
                 return next(*args)
@@ -553,6 +624,8 @@ class Interp(MiniEval):
                 cq = object.__getattribute__(args[0], '_cls')
                 if cq:
                     return PkgClass(cq)
+                if args[0].has('__isa__') and args[0].get('__isa__'):
+                    return Sym(args[0].get('__isa__')[0])       # an external class, known by name only
                 raise Unsupported('type() of an abstract object')
             if not isinstance(args[0], Sym):
                 return type(args[0])
@@ -748,9 +821,18 @@ class Interp(MiniEval):
         if isinstance(callee, type) and callee in (str, int, bool, list, tuple, dict, float, set, bytes, frozenset):
             if any(isinstance(a, (Obj, Sym)) for a in args):
                 raise Unsupported(f'{callee.__name__}() of an abstract value')
-            return callee(*args, **kwargs)
+            try:
+                return callee(*args, **kwargs)
+            except (ValueError, OverflowError) as x:
+                raise Raised(type(x).__name__)       # int('x'), float('') ...: what the analysed code would raise
         if callable(callee) and not isinstance(callee, (Obj, Sym)):
-            return callee(*args, **kwargs)
+            concrete = not any(isinstance(a, (Obj, Sym)) for a in list(args) + list(kwargs.values()))
+            try:
+                return callee(*args, **kwargs)
+            except (ValueError, OverflowError, ZeroDivisionError) as x:
+                if concrete and getattr(callee, '__module__', None) == 'builtins':
+                    raise Raised(type(x).__name__)   # chr(0x110000), int('x', 16), divmod(1, 0) on concrete operands
+                raise
         raise Unsupported(f'call of {text or callee!r}')
 
     def namedtuple_instance(self, qual, cnode, args, kwargs):
@@ -805,7 +887,7 @@ class Interp(MiniEval):
 
     def run_function(self, mod, fn, cls, args, kwargs, bound=None):
         sub = Interp(self.ctx, mod.name, cls, {}, self.stubs, self.depth + 1, self.shared)
-        decos = [ast.unparse(d) for d in fn.decorator_list]
+        decos = [_unparse(d) for d in fn.decorator_list]
         args = list(args)
         if cls and 'staticmethod' not in decos:
             first = bound if bound is not None else (PkgClass(f'{mod.name}.{cls}') if 'classmethod' in decos else None)
@@ -818,11 +900,18 @@ class Interp(MiniEval):
             else:
                 args = [first] + args
         sub.bind_params(fn.args, args, dict(kwargs))
-        from .srcmodel import walk_no_nested
-        if any(isinstance(n, (ast.Yield, ast.YieldFrom)) for n in walk_no_nested(fn)):
-            # a generator is run eagerly: its items are collected (sound for the pure stubs the tables use)
+        isgen = _IS_GENERATOR.get(id(fn))
+        if isgen is None:
+            from .srcmodel import walk_no_nested
+            isgen = _IS_GENERATOR[id(fn)] = any(isinstance(n, (ast.Yield, ast.YieldFrom)) for n in walk_no_nested(fn))
+        if isgen:
+            # a generator is run eagerly: its items are collected (sound for the pure stubs the tables use); an exception the
+            # body raises after some items is delivered where a lazy generator would deliver it - after those items
             sub.yielded = []
-            sub.run(fn.body)
+            try:
+                sub.run(fn.body)
+            except Raised as exc:
+                return _LateRaise(list(sub.yielded), exc)
             return iter(list(sub.yielded))
         return sub.run(fn.body)
 
@@ -982,11 +1071,46 @@ class Interp(MiniEval):
             if isinstance(op, (ast.In, ast.NotIn)) and isinstance(b, (list, tuple, set, frozenset, dict)):
                 r = any(a is x for x in b)
                 return r if isinstance(op, ast.In) else not r
+            if isinstance(op, (ast.In, ast.NotIn)) and isinstance(b, Obj):
+                f = self.dunder(b, '__contains__')
+                if f is not None:
+                    r = bool(self.apply(f, [a], {}))
+                    return r if isinstance(op, ast.In) else not r
             raise Unsupported('ordering of abstract objects')
         return super().cmp(op, a, b)
 
+    def dunder(self, o, name):
+        """The protocol method `name` of a package-class object that carries no canned answer for it, or None."""
+        if not isinstance(o, Obj) or o.has(name):
+            return None
+        cq = object.__getattribute__(o, '_cls')
+        if not cq:
+            return None
+        mq = self.src.find_method(cq, name)
+        if not mq:
+            return None
+        m_, fn_ = self.src.func(mq)
+        return PkgFunc(m_, fn_, mq.split('.')[1], bound=o)
+
+    def iterate(self, v):
+        f = self.dunder(v, '__iter__')
+        if f is not None:
+            return list(self.apply(f, [], {}))
+        if isinstance(v, Obj) and not v.has('__iter__'):
+            g = self.dunder(v, '__getitem__')
+            if g is not None:
+                raise Unsupported('iteration through __getitem__')
+        return list(v)
+
     def truth(self, v):
         if isinstance(v, Obj):
+            f = self.dunder(v, '__bool__')
+            if f is not None:
+                return bool(self.apply(f, [], {}))
+            if not v.has('__bool__'):
+                f = self.dunder(v, '__len__')
+                if f is not None:
+                    return self.apply(f, [], {}) != 0
             return bool(v)
         return super().truth(v)
 
@@ -1011,9 +1135,15 @@ def call_function(ctx, qual: str, args=(), kwargs=None, stubs=None, self_obj=Non
                     if mn_ in ctx.src.mods and f'{cn_}.{name}' in ctx.src.mods[mn_].functions:
                         stubs.setdefault(f'{mn_}.{cn_}.{name}', stubs[k])
                         break
+    persist = shared.get('persist')
+    if isinstance(persist, dict):
+        # values that do not depend on the call (module-level tables, class attributes, parsed regexes) survive between calls
+        shared.update({k: v for k, v in persist.items()})
     it = Interp(ctx, mod.name, cls, {}, stubs, shared=shared)
     try:
         return it.run_function(mod, fn, cls, list(args), dict(kwargs or {}), self_obj)
     finally:
+        if isinstance(persist, dict):
+            persist.update({k: v for k, v in shared.items() if isinstance(k, tuple) and k and k[0] in ('modvalue', 'classattr', 'const', 'rematch')})
         if isinstance(shared.get('stats'), dict):
             shared['stats']['steps'] = shared['steps']
